@@ -889,4 +889,6 @@ def run(ctx):
     ctx.guard(r11, ctx, prog)
     ctx.guard(C19_bounds.r12, ctx, prog)
     ctx.guard(C19_bounds.r13, ctx, prog)
+    ctx.guard(C19_bounds.r14, ctx, prog)
+    ctx.guard(C19_bounds.r15, ctx, prog)
     return prog
